@@ -15,7 +15,7 @@ CONSTANTS Depth,
           Params,        \* limits / counts
           NStages,       \* set of chain lengths
           PipeFlavs,     \* subset of {"plain", "batched", "twin"}
-          SelfObs,       \* subset of {0, 1}: allow "adapter itself as observer"
+          SelfObs,       \* subset of {0, 1, 2}: 1 allows "adapter itself as observer", 2 also after it was polled (late stacking)
           CoreSet        \* "lean" | "full": operation set of the complete-tree generator (GSpecCore)
 
 VARIABLES pipes,  \* sequence of [flav, chain]
@@ -33,13 +33,18 @@ StageSet ==
 ChainSet ==
     UNION {[1..n -> StageSet] : n \in NStages}
 
-(* mark purely dynamic stages that have a successor as self-observed, if allowed *)
+(* mark purely dynamic stages that have a successor as self-observed, if allowed.  A self-observed  *)
+(* stage of mode "dyninit" stands for a purely dynamic adapter that was POLLED with its limit p       *)
+(* announced before the next stage was built from it (late stacking): the next stage's initial values *)
+(* must then be the adapter's current view under p, not the empty view of a never-polled adapter.     *)
+MarkSelf(ch, M) ==
+    [j \in 1..Len(ch) |-> IF j < Len(ch) /\ ch[j].kind \in LimitKinds /\ ch[j].mode \in M
+                               /\ (j = 1 \/ ~(ch[j - 1].kind \in LimitKinds /\ ch[j - 1].mode \in M))
+                            THEN [ch[j] EXCEPT !.self = 1] ELSE ch[j]]
+
 WithSelf(ch) ==
-    {ch} \cup (IF 1 \in SelfObs
-               THEN {[j \in 1..Len(ch) |-> IF j < Len(ch) /\ ch[j].kind \in LimitKinds /\ ch[j].mode = "dyn"
-                                              /\ (j = 1 \/ ~(ch[j - 1].kind \in LimitKinds /\ ch[j - 1].mode = "dyn"))
-                                           THEN [ch[j] EXCEPT !.self = 1] ELSE ch[j]]}
-               ELSE {})
+    {ch} \cup (IF 1 \in SelfObs THEN {MarkSelf(ch, {"dyn"})} ELSE {})
+         \cup (IF 2 \in SelfObs THEN {MarkSelf(ch, {"dyn", "dyninit"}), MarkSelf(ch, {"dyninit"})} ELSE {})   \* 2: late stacking
 
 PipesOf(f, ch) ==
     CASE f = "plain"   -> <<[flav |-> "plain", chain |-> ch]>>
@@ -72,6 +77,10 @@ GInit ==
 
 Limit(s, i, v) ==
     /\ s \in 1..Len(pipes) /\ i \in 1..Len(pipes[s].chain) /\ lim[s][i].st = "alive" /\ v \in Params
+    \* a late-stacked Tail (self-observed, "dyninit") only has its limit raised: a decrease from beyond the length
+    \* is known finding D2, which cannot be attributed to an untapped stage across budgeted polls
+    /\ (pipes[s].chain[i].kind = "tail" /\ pipes[s].chain[i].mode = "dyninit" /\ pipes[s].chain[i].self = 1)
+          => v >= lim[s][i].val
     /\ lim' = [lim EXCEPT ![s][i].val = v, ![s][i].seen = FALSE]
     /\ hist' = Append(hist, H("Limit", "v", s, i, v, <<>>, 0))
     /\ UNCHANGED <<alive, vals, cap, fresh, txn, chan, subs, sflav, snext, srest, replica, gmsgs, cands, armed, owed,
